@@ -12,6 +12,7 @@ packet index 0..n+1 for each n. Later cases are seeded: larger n, torn tails, sk
 buffer sizes, short reads.
 """
 import io
+import logging
 import os
 import re
 import tempfile
@@ -19,7 +20,7 @@ import warnings
 
 from sim import factory
 from sim.choices import payload
-from sim.kernel import LivenessViolation, SimRaw, StepBudgetExceeded, World
+from sim.kernel import library_exception, LivenessViolation, SimRaw, StepBudgetExceeded, World
 from sim.runner import Outcome
 
 ID = "C19"
@@ -62,7 +63,8 @@ ASSUMPTIONS = [
     "temp file with identical content is read instead; the row oracle is unaffected",
 ]
 EXPECTED_PROBES = ("sim_disk_used", "n_eq_0", "n_eq_10", "n_eq_11", "index_eq_n", "index_gt_n", "index_last", "torn_tail",
-                   "short_raw_read", "listing_elided", "listing_full", "repeated_packet", "garbage_tail", "huge_packet", "index_negative_beyond", "index_negative_inside")
+                   "short_raw_read", "listing_elided", "listing_full", "repeated_packet", "garbage_tail", "huge_packet", "index_negative_beyond", "index_negative_inside",
+                   "parse_with_body_definition", "packet_shorter_than_definition_needs")
 
 XTCE_PATH = os.path.join(os.path.dirname(os.path.dirname(os.path.abspath(__file__))), "models", "header_only.xml")
 
@@ -102,6 +104,9 @@ def parse_rows(text):
     rows = []
     for line in _ANSI.sub("", text).splitlines():
         cells = _BOX.sub(" ", line).split()
+        if cells and cells[0] in ("...", "\u2026") and not any(re.fullmatch(r"-?\d+", c) for c in cells[1:2]):
+            rows.append("...")           # the ellipsis row, however many cells it fills ("...", "... (3 more)", seven "...")
+            continue
         if len(cells) < 7:
             continue
         if all(c in ("...", "\u2026") for c in cells):
@@ -121,10 +126,92 @@ def row_matches(row, expected):
     return all(any(x == c for c in it) for x in expected)
 
 
+def run_body(ch, w, out, render):
+    """'Never a traceback, always terminates - on any file' with a definition that HAS a body: a drawn XTCE-family document
+    and a file mixing packets its containers describe with too-short ones, over-long ones and unknown APIDs. Only
+    termination and the absence of a traceback are judged here (what is shown depends on which packets the definition
+    recognises, which is not this property's business)."""
+    from sim import xtce_family as xf
+    doc = xf.draw_doc(ch, tag="CLI")
+    rd = xf.draw_rendering(ch) if ch.chance(1, 3, "cli_rendering") else dict(xf.CANONICAL)
+    if rd["ns"] != "prefix" or rd["prefix"] != "xtce":
+        rd = dict(xf.CANONICAL, comments=rd["comments"], ws=rd["ws"])       # the CLI has no option for another prefix
+    n = ch.draw(9, "n")
+    pkts, cats = [], []
+    for j in range(n):
+        cat = ch.weighted([(5, "leaf"), (3, "short"), (2, "unknown"), (1, "long"), (1, "header_only")], "cat")
+        leaf = doc.leaves[ch.draw(len(doc.leaves), "leaf")]
+        sub = ch.draw(1 << 16, "sub")
+        p = xf.encode_packet(doc, leaf["chain"], leaf["apid"], leaf["fixed"], sub, count=700 + j)
+        if cat == "short" and len(p) > 7:
+            d = p[6:len(p) - 1 - (sub % max(1, len(p) - 7))]
+            p = p[:4] + (len(d) - 1).to_bytes(2, "big") + d
+        elif cat == "header_only":
+            p = p[:4] + b"\x00\x00" + b"\x00"
+        elif cat == "unknown":
+            p = xf.encode_packet(doc, ["CCSDSPacket"], doc.unknown_apids[0], {}, sub, count=700 + j)
+        elif cat == "long":
+            d = p[6:] + payload(sub + 3, 1 + sub % 3)
+            p = p[:4] + (len(d) - 1).to_bytes(2, "big") + d
+        pkts.append(p)
+        cats.append(cat)
+    content = b"".join(pkts)
+    index = None
+    if ch.chance(2, 3, "with_index"):
+        index = ch.draw(n + 2, "index")
+    fd, path = tempfile.mkstemp(prefix="verif_c19_", suffix=".pkts")
+    os.write(fd, content)
+    os.close(fd)
+    fd, xpath = tempfile.mkstemp(prefix="verif_c19_", suffix=".xml")
+    os.write(fd, xf.render(doc, rd))
+    os.close(fd)
+    args = ["parse", path, xpath] + (["--packet", str(index)] if index is not None else [])
+    w.ev("cli", "invoke_body", n, -1 if index is None else index, "".join(c[0] for c in cats))
+    w.probe("parse_with_body_definition")
+    if "short" in cats or "header_only" in cats:
+        w.probe("packet_shorter_than_definition_needs")
+    lib_logger = logging.getLogger("space_packet_parser")
+    saved_log = (lib_logger.propagate, lib_logger.level)
+    lib_logger.propagate, lib_logger.level = True, logging.NOTSET
+    err = None
+    result = None
+    try:
+        with warnings.catch_warnings():
+            warnings.simplefilter("ignore")
+            try:
+                result = CliRunner().invoke(_cli.spp, args)
+            except (LivenessViolation, StepBudgetExceeded) as e:
+                err = str(e)
+    finally:
+        lib_logger.propagate = saved_log[0]
+        lib_logger.setLevel(saved_log[1])
+        os.unlink(path)
+        os.unlink(xpath)
+    desc = f"cmd=parse with a drawn XTCE document ({doc.name}), file of {n} packets [{' '.join(cats)}], index={index}"
+    if err is not None:
+        out.fail("does_not_terminate", f"{err} ({desc})", "parse_body|does_not_terminate")
+    else:
+        exc = result.exception
+        if exc is not None and not isinstance(exc, SystemExit):
+            library_exception(exc)
+            out.fail("traceback", f"command ended in {type(exc).__name__}: {exc} ({desc})", f"parse_body|traceback|{type(exc).__name__}")
+    out.log, out.faults, out.probes, out.sim_ns = w.log, w.faults, w.probes, w.now
+    out.nontrivial = n >= 1
+    out.sched = ("parse_body", n, index, tuple(cats))
+    if render:
+        out.sample = {"command": "parse (definition with a body)", "document": doc.name, "features": sorted(doc.features),
+                      "packets": cats, "index": index, "exit_code": None if result is None else result.exit_code,
+                      "output_head": (result.output[:400] if result is not None else ""), "result": out.violation or "ok"}
+    return out
+
+
 def run(ch, render=False):
     out = Outcome()
     w = World(ch, max_steps=50_000)
-    sweep = ch.weighted([(1, True), (7, False)], "mode")
+    mode = ch.weighted([(1, "sweep"), (7, "normal"), (2, "body")], "mode")
+    if mode == "body":
+        return run_body(ch, w, out, render)
+    sweep = mode == "sweep"
     if sweep:
         n = ch.draw(N_SWEEP + 1, "n")
         cmd = ("describe", "parse")[ch.draw(2, "cmd")]
@@ -236,11 +323,12 @@ def run(ch, render=False):
         return n_
 
     def sim_open(file, mode="r", *a, **kw):
-        if os.fspath(file) == path and "b" in mode and "r" in mode:
+        if isinstance(file, (str, bytes, os.PathLike)) and os.fspath(file) == path and "b" in mode and "r" in mode:
             w.probe("sim_disk_used")
             w.ev("disk", "open")
             raw = SimRaw(w, content, short=short)
-            raws.append(raw)
+            raw.eof_budget = 8 + len(content) // 7        # the CLI consumes the whole file inside one call: polls at end-of-file
+            raws.append(raw)                                 # are bounded by the number of packets the content can hold
             return io.BufferedReader(raw, buffer_size=bufsize)
         return open(file, mode, *a, **kw)
 
@@ -253,6 +341,11 @@ def run(ch, render=False):
 
     err = None
     result = None
+    # logging as users have it: the CLI configures the root logger itself (RichHandler on its console), and the library's
+    # loggers propagate to it
+    lib_logger = logging.getLogger("space_packet_parser")
+    saved_log = (lib_logger.propagate, lib_logger.level)
+    lib_logger.propagate, lib_logger.level = True, logging.NOTSET
     had_open = "open" in _cli.__dict__
     saved_open = _cli.__dict__.get("open")
     _cli.open = sim_open
@@ -268,6 +361,8 @@ def run(ch, render=False):
             _cli.open = saved_open
         else:
             del _cli.open
+        lib_logger.propagate = saved_log[0]
+        lib_logger.setLevel(saved_log[1])
         os.unlink(path)
 
     # ---- oracle ------------------------------------------------------------------------------
@@ -282,6 +377,8 @@ def run(ch, render=False):
         except Exception:
             text = result.output
         exc = result.exception
+        if exc is not None and not isinstance(exc, SystemExit):
+            library_exception(exc)            # an exception raised by harness code (e.g. inside sim_open) is not the CLI's
         try:
             text_all = result.output          # stdout and stderr: an error message may legitimately go to stderr
         except Exception:
@@ -326,16 +423,16 @@ def run(ch, render=False):
             elif -m <= index < 0:
                 # a negative index inside the Python range: the statement does not say whether it counts from the end or
                 # is out of range; either answer is accepted (no traceback was already required above)
-                if ctrs not in ([], [exp_ctrs[index]]):
+                if set(ctrs) not in (set(), {exp_ctrs[index]}):
                     out.fail("wrong_packet_shown", f"--packet {index} printed packets with counters {ctrs[:12]}; expected "
                                                    f"[{exp_ctrs[index]}] or an out-of-range message ({desc})", "parse|wrong_packet_neg")
             elif 0 <= index < m:
-                if ctrs != [exp_ctrs[index]]:
+                if set(ctrs) != {exp_ctrs[index]}:
                     out.fail("wrong_packet_shown", f"--packet {index} printed packets with counters {ctrs[:12]}, expected "
                                                    f"exactly [{exp_ctrs[index]}] ({desc})", "parse|wrong_packet")
                 else:
                     apids = [int(x) for x in _APID.findall(text)]
-                    if apids != [factory.header_tuple(exp_pkts[index])[3]]:
+                    if set(apids) != {factory.header_tuple(exp_pkts[index])[3]}:
                         out.fail("wrong_packet_shown", f"--packet {index} printed APIDs {apids}, expected "
                                                        f"[{factory.header_tuple(exp_pkts[index])[3]}] ({desc})", "parse|wrong_apid")
             else:
